@@ -654,7 +654,12 @@ class Interp(object):
         env = Env(f.env)
         params = [x.arg for x in a.posonlyargs + a.args]
         args = list(args)
-        if f.selfobj is not None and not isinstance(fnode, ast.Lambda):
+        decos = [ast.unparse(d_) for d_ in getattr(fnode, 'decorator_list', [])]
+        if 'staticmethod' in decos:
+            pass                                    # no implicit first argument
+        elif 'classmethod' in decos and f.selfobj is not None:
+            args = [ClassRef(f.selfobj.cls) if isinstance(f.selfobj, Obj) and isinstance(f.selfobj.cls, ClassInfo) else f.selfobj] + args
+        elif f.selfobj is not None and not isinstance(fnode, ast.Lambda):
             args = [f.selfobj] + args
         elif f.selfobj is not None and isinstance(fnode, ast.Lambda):
             pass
@@ -703,10 +708,18 @@ class Interp(object):
                 self.calls.append((f.info.qualname, self.loc(node) if node is not None else None))
             if isinstance(fnode, ast.Lambda):
                 return self.eval(fnode.body, env)
+            is_gen = any(isinstance(n_, (ast.Yield, ast.YieldFrom)) for n_ in _walk_same_scope(fnode))
+            if is_gen:
+                fr.yields = []
             try:
                 self.exec_block(docstring_stripped(fnode.body), env)
             except _Return as r:
-                return r.v
+                if not is_gen:
+                    return r.v
+            if is_gen:
+                # a generator is evaluated eagerly: the sequence of values it yields (all generators of the package are
+                # consumed at once by a for loop; laziness is not observable there)
+                return Seq(list(fr.yields), 'list')
             return NONE
         finally:
             self.depth -= 1
@@ -728,6 +741,13 @@ class Interp(object):
 
     def st_Expr(self, st, env):
         if isinstance(st.value, ast.Constant):
+            return
+        if isinstance(st.value, ast.Yield):
+            v = self.eval(st.value.value, env) if st.value.value is not None else NONE
+            fr = self.frames[-1]
+            if not hasattr(fr, 'yields'):
+                raise Unsupported('yield outside an analysed generator', st)
+            fr.yields.append(v)
             return
         self.eval(st.value, env)
 
@@ -1048,6 +1068,8 @@ class Interp(object):
         labels = []
         filters = []
         for c in chain:
+            if c.get('partial'):
+                return 'partial: %s' % c['partial']     # a loop over a slice of the type list does not visit every type
             labels.extend(c.get('labels', ()))
             filters.extend(c.get('filters', ()))
         if la == lb:
@@ -1392,7 +1414,7 @@ class Interp(object):
         items = {}
         for k, v in zip(node.keys, node.values):
             kv = self.eval(k, env)
-            if not (isinstance(kv, Const) and isinstance(kv.v, str)):
+            if not (isinstance(kv, Const) and isinstance(kv.v, (str, tuple))):
                 raise Unsupported('dict with non-string keys', node)
             items[kv.v] = self.eval(v, env)
         return Obj('dict', {'items': items})
@@ -1831,6 +1853,17 @@ class Interp(object):
 
     def ev_Starred(self, node, env):
         raise Unsupported('starred', node)
+
+
+def _walk_same_scope(fnode):
+    """nodes of a function body without descending into nested function definitions / lambdas"""
+    stack = list(getattr(fnode, 'body', [])) if not isinstance(fnode, ast.Lambda) else []
+    while stack:
+        n = stack.pop()
+        yield n
+        for c in ast.iter_child_nodes(n):
+            if not isinstance(c, (ast.FunctionDef, ast.AsyncFunctionDef, ast.Lambda, ast.ClassDef)):
+                stack.append(c)
 
 
 # =============================================================================================
